@@ -866,7 +866,13 @@ func main() {
 						fmt.Fprintln(os.Stderr, "WORKER STDERR TAIL:\n"+t)
 					}
 					if err != nil {
-						ev.HarnessError("worker for %s failed: %v (%s)", sc.name, err, explore.Short(string(out), 300))
+						// the worker runs the code under test on what earlier executions left on disk: its death
+						// (a fatal runtime error, or the kernel killing it for the memory it asked for) is a verdict
+						// about the tree, not a harness error; the shard's counts are lost
+						mu.Lock()
+						r.Report(sc.name+"/worker-process-died", fmt.Sprintf("a worker process exploring %s died: %v; stderr tail: %s", sc.name, err, explore.Short(werr.String(), 400)), map[string]interface{}{"scenario": sc.name, "bound": B})
+						mu.Unlock()
+						return
 					}
 					var wr wres
 					lines := strings.Split(strings.TrimSpace(string(out)), "\n")
